@@ -70,7 +70,7 @@ class Run:
         self.bounds = []
         self.notes = {}
         self.known, self.fixed = load_known()
-        self._seen_v = set()
+        self._seen_v = {}
 
     # ---- deductive side -------------------------------------------------------------------------------------------
     def under_contract(self, file, qualname, text=None):
@@ -78,12 +78,16 @@ class Run:
             text = ''
         self.functions[f'{file}::{qualname}'] = hashlib.sha256(text.encode()).hexdigest()[:16]
 
-    def oblig(self, name, ok, engine='P', backend='z3', seconds=0.0, sample=None):
-        """ok: True discharged, False failed (caller must also call violation()), None undecided"""
-        status = 'discharged' if ok is True else 'failed' if ok is False else 'undecided'
+    def oblig(self, name, ok, engine='P', backend='z3', seconds=0.0, sample=None, known=False):
+        """ok: True discharged, False failed (caller must also call violation(); known=True when that returned 'known'),
+        None undecided"""
+        status = 'discharged' if ok is True else ('failed-known' if known else 'failed') if ok is False else 'undecided'
         self.obligs.append((name, engine, status, backend, round(seconds, 4)))
         e = self.by_engine.setdefault(engine, {'obligations': 0, 'discharged': 0, 'backends': {}})
-        e['obligations'] += 1
+        if status == 'failed-known':
+            e['failed_known_findings'] = e.get('failed_known_findings', 0) + 1
+        else:
+            e['obligations'] += 1
         if ok is True:
             e['discharged'] += 1
         e['backends'][backend] = e['backends'].get(backend, 0) + 1
@@ -120,13 +124,13 @@ class Run:
                   found_input=True, extra=None):
         """key identifies the specific input / obligation+witness; matched against known_findings.jsonl"""
         if (self.pid, key) in self._seen_v:
-            return
-        self._seen_v.add((self.pid, key))
+            return self._seen_v[(self.pid, key)]
+        self._seen_v[(self.pid, key)] = 'known' if (self.pid, key) in self.known else 'new'
         k = self.known.get((self.pid, key))
         if k is not None:
             self.known_hits.append(k)
             print(f'KNOWN-FINDING: property={self.pid} {k["what"]} [{key}]', flush=True)
-            return
+            return 'known'
         d = os.path.join(env.VERIF, 'replays', self.pid)
         os.makedirs(d, exist_ok=True)
         path = os.path.join(d, _slug(key) + '.json')
@@ -140,10 +144,12 @@ class Run:
         tail = '' if found_input else ' no-failing-input-found'
         print(f'VIOLATION property={self.pid} replay={path}{tail}', flush=True)
         print(f'  {what}', flush=True)
+        return 'new'
 
     # ---- verdict --------------------------------------------------------------------------------------------------
     def finish(self, rule='', explanation='', checker_cmd='', trusted_base=(), extra=None, crashed=None):
-        n_ob = len(self.obligs)
+        n_known = sum(1 for o in self.obligs if o[2] == 'failed-known')
+        n_ob = len(self.obligs) - n_known
         n_dis = sum(1 for o in self.obligs if o[2] == 'discharged')
         cov = {
             'obligations': n_ob, 'discharged': n_dis,
@@ -158,6 +164,7 @@ class Run:
             'samples': (self.samples + self.ob_samples) or ['(none)'],
             'bounded_stand_in': {'bounded': True, 'bounds': self.bounds, 'never_counted_as_proved': True} if self.cases else None,
             'known_findings_hit': [k['key'] for k in self.known_hits],
+            'obligations_failed_on_known_findings': n_known,
         }
         if extra:
             cov.update(extra)
